@@ -31,7 +31,7 @@ PROPS = {
         title="every task execution justified, exactly once",
         theorems={NEXT: ["C01_offer_from_staged", "C01_no_offer_unless_running_or_remediation"], JOIN: ["C07_ready_iff_satisfied"], HISTORY: ["C18_record_core_fixed"]},
         keys=["status", "sequence", "staged", "tasks"], offers="ids",
-        prof=dict(p_items=0.0, p_retry=0.0, p_badexpr=0.0, p_join=0.9, p_join_count=0.1, p_loop=0.05, p_parallel_edge=0.05), hist=dict(p_fail=0.3, fixed_outcomes=True),
+        prof=dict(p_items=0.0, p_retry=0.0, p_badexpr=0.0, p_join=0.9, p_join_count=0.1, p_loop=0.05, p_parallel_edge=0.05), hist=dict(p_fail=0.3, fixed_outcomes=True, p_lazy_start=0.25),
         monitor="C01", unproven=["global multiset equality with the prescribed executions (C01_global) is not proved; search only"],
     ),
     "C02": dict(
@@ -47,7 +47,7 @@ PROPS = {
         title="no stuck workflow",
         theorems={STATUS: ["tbl_succeeded_doors_task", "tbl_failure_covered", "tbl_task_targets_have_events", "tbl_item_targets_have_events", "tbl_failed_request_total"], ERRORS: ["C11_update_never_raises_expr"]},
         keys=["status", "staged", "sequence"], offers="ids",
-        prof=dict(), hist=dict(p_pause=0.1, p_cancel=0.05, p_rerun=0.4, p_task_pause=0.05, p_lifecycle=0.3),
+        prof=dict(), hist=dict(p_pause=0.1, p_cancel=0.05, p_rerun=0.4, p_task_pause=0.05, p_lifecycle=0.3, p_lazy_start=0.25),
         monitor="C03", unproven=["C03_quiescent_resting (history invariant) is not proved; search only"],
     ),
     "C04": dict(
@@ -60,7 +60,7 @@ PROPS = {
         title="persist/restore unobservable",
         theorems={HISTORY: ["C05_persist_identity", "C18_history_extends"]},
         keys=None, offers="full",
-        prof=dict(), hist=dict(p_persist=0.35, p_pause=0.05, p_rerun=0.2), monitor="C05",
+        prof=dict(), hist=dict(p_persist=0.35, p_pause=0.05, p_rerun=0.2, p_lazy_start=0.25), monitor="C05",
         unproven=["the model has value semantics, so restore is the identity on it by construction; aliasing in the implementation is visible only to the correspondence check with persist ops and to the twin monitor"],
     ),
     "C06": dict(
@@ -74,7 +74,7 @@ PROPS = {
         title="join runs once and only when satisfied",
         theorems={JOIN: ["C07_ready_iff_satisfied", "C07_barrier_requirement", "C07_unreachable_fails", "C07_check_statuses"], NEXT: ["C01_offer_from_staged"]},
         keys=["status", "staged", "errors", "sequence"], offers="ids",
-        prof=dict(p_join=0.7, p_join_count=0.3, max_tasks=7, p_template=0.4, templates=[0, 0, 0, 2, 6]), hist=dict(p_fail=0.3, p_cancel=0.03),
+        prof=dict(p_join=0.7, p_join_count=0.3, max_tasks=7, p_template=0.4, templates=[0, 0, 0, 2, 6]), hist=dict(p_fail=0.3, p_cancel=0.03, p_lazy_start=0.25),
         monitor="C07", unproven=["C07_once (at most one start per satisfaction) not proved; count joins: known finding D2"],
     ),
     "C08": dict(
@@ -150,7 +150,7 @@ PROPS = {
         title="history is append-only; finished records never change",
         theorems={HISTORY: ["C18_extends_request", "C18_extends_next", "C18_extends_report", "C18_extends_render", "C18_extends_rerun", "C18_history_extends", "C18_record_core_fixed", "C18_context_fixed"], ITEMS: ["C13_completed_rows"]},
         keys=["contexts", "routes", "sequence"], offers=None, prof=dict(p_items=0.25, p_join=0.7, p_loop=0.3),
-        hist=dict(p_fail=0.3, p_persist=0.15, p_rerun=0.3), monitor="C18", unproven=["freezing of status/next after the decisions not proved; search only"],
+        hist=dict(p_fail=0.3, p_persist=0.15, p_rerun=0.3, p_lazy_start=0.25), monitor="C18", unproven=["freezing of status/next after the decisions not proved; search only"],
     ),
     "C19": dict(
         title="conducting deterministic; next is a pure query",
